@@ -3,12 +3,23 @@
    the inputs TLC enumerates for it.  These are the "TLC-generated behaviours" replayed into the real
    generator and the real generated code.                                                           *)
 EXTENDS RulesUniverse, Json, SequencesExt
-CONSTANTS Leaves, Depth, Width, OutFile, Part, Parts, OnlyConv
+CONSTANTS Leaves, Depth, Width, OutFile, Part, Parts, OnlyConv, Mode
 
-Univ == GrowN(Leaves, Depth)
-USeq == SetToSeq(Univ)
-Sources == {USeq[i] : i \in {j \in DOMAIN USeq : j % Parts = Part}}     \* this JVM's share of the universe
-Pairs == {<<a, b>> : a \in Sources, b \in Univ}
+AllPairs == PairsOf(Mode, Leaves, Depth)
+USeq == SetToSeq({p[1] : p \in AllPairs})
+Sources == {USeq[i] : i \in {j \in DOMAIN USeq : j % Parts = Part}}     \* this JVM's share of the universe, by a cheap structural hash.  (TLC re-evaluates a definition at every
+\* reference, so anything like Seq[i] or x \in Def inside a comprehension is quadratic -- measured: minutes.)
+RECURSIVE TermHash(_)
+TermHash(t) ==
+  CASE t.k = "basic" -> Len(t.b)
+    [] t.k = "named" -> 3 + Len(t.id)
+    [] t.k = "ptr" -> (7 + 2 * TermHash(t.e)) % 1009
+    [] t.k = "slice" -> (11 + 3 * TermHash(t.e)) % 1009
+    [] t.k = "array" -> (13 + 5 * TermHash(t.e)) % 1009
+    [] t.k = "map" -> (17 + 7 * TermHash(t.key) + 11 * TermHash(t.e)) % 1009
+    [] t.k = "struct" -> IF Len(t.fs) = 0 THEN 19 ELSE (23 + Len(t.fs[1].n) + 13 * TermHash(t.fs[1].t)) % 1009
+    [] OTHER -> 29
+Pairs == {p \in PairsOf(Mode, Leaves, Depth) : (TermHash(p[1]) + 3 * TermHash(p[2])) % Parts = Part}
 Rec(a, b, c) ==
   LET ir == PlanTop(c, a, b) IN
   [s |-> a, t |-> b, cfg |-> c, conv |-> Conv(c, a, b), plan |-> ~IsFail(ir),
@@ -16,7 +27,7 @@ Rec(a, b, c) ==
 All == {Rec(p[1], p[2], c) : p \in Pairs, c \in Cfgs}
 Scen == IF OnlyConv THEN {r \in All : r.conv \/ r.plan} ELSE All
 ASSUME ndJsonSerialize(OutFile, SetToSeq(Scen))
-ASSUME PrintT(<<"exported", Cardinality(Scen), "terms", Cardinality(Univ)>>)
+ASSUME PrintT(<<"exported", Cardinality(Scen)>>)
 VARIABLE x
 Init == x = 0
 Next == x' = x
